@@ -1,0 +1,14 @@
+//go:build verif
+
+package calculator
+
+// VerifEvalHook, when set, is called before every program token is evaluated
+// with the calculator instance and the token index.
+var VerifEvalHook func(instance *ExpressionCalculator, step int)
+
+func verifEvalHook(c *ExpressionCalculator, step *int) {
+	if h := VerifEvalHook; h != nil {
+		h(c, *step)
+	}
+	*step++
+}
